@@ -1,0 +1,45 @@
+//go:build verif
+// +build verif
+
+// Verification hook (property C13): a group-create processor reduced to what the share-piece REQUEST
+// path needs (group init context cache, miner info, network server), so that the node's own
+// OnMessageSharePieceReq can be driven. Add-only; compiled only with -tags verif.
+package group_create
+
+import (
+	"com.tuntun.rangers/node/src/common"
+	"com.tuntun.rangers/node/src/consensus/groupsig"
+	"com.tuntun.rangers/node/src/consensus/model"
+	"com.tuntun.rangers/node/src/consensus/net"
+)
+
+type VerifC13ReqProc struct{ p *groupCreateProcessor }
+
+func VerifC13NewReqProc(mi model.SelfMinerInfo, ns net.NetworkServer) *VerifC13ReqProc {
+	VerifDKGInit()
+	p := &groupCreateProcessor{}
+	p.minerInfo = mi
+	p.groupInitContextCache = newGroupInitContextCache()
+	p.NetServer = ns
+	return &VerifC13ReqProc{p}
+}
+
+// NewContext is groupInitContextCache.GetOrNewContext (what OnMessageGroupInit does once the group info
+// is validated): candidates = everybody who was pinged, info.GroupMembers = those who answered.
+func (v *VerifC13ReqProc) NewContext(info *model.GroupInitInfo, candidates []groupsig.ID) bool {
+	return v.p.groupInitContextCache.GetOrNewContext(info, candidates, &v.p.minerInfo) != nil
+}
+
+// GenSharePieces is the dealing step of OnMessageGroupInit for the cached context.
+func (v *VerifC13ReqProc) GenSharePieces(groupHash common.Hash) map[string]model.SharePiece {
+	return v.p.groupInitContextCache.GetContext(groupHash).GenSharePieces()
+}
+
+func (v *VerifC13ReqProc) Coefficients(groupHash common.Hash) []groupsig.Seckey {
+	ni := v.p.groupInitContextCache.GetContext(groupHash).nodeInfo
+	return ni.genSecKeyList(ni.threshold())
+}
+
+func (v *VerifC13ReqProc) OnMessageSharePieceReq(msg *model.ReqSharePieceMessage) {
+	v.p.OnMessageSharePieceReq(msg)
+}
